@@ -79,7 +79,7 @@ func init() {
 func runC04(c *Ctx) {
 	b := c04cachedBuilder(c)
 	if b == nil {
-		c.undecided("C04.R1", "anchor|ring builder", "no function of package route whose region contains every store to Target.Weight and Route.wTargets and changes neither Route.Targets nor Target.FixedWeight: the ring builder does not resolve")
+		c.undecided("C04.R1", "anchor|ring builder", "no function of package route whose region contains every store to Target.Weight and Route.wTargets and changes neither Route.Targets nor Target.FixedWeight (nor one that assigns every Target.Weight, changes no input and whose []*Target result is all that is stored in the ring field outside its region): the ring builder does not resolve")
 	} else {
 		runC04R1(c, b)
 		runC04R4(c, b)
@@ -130,6 +130,9 @@ type c04point struct {
 // the obligation to its (static) call sites. The only accepted skip is the count-guarded one.
 func runC04R1(c *Ctx, b *c04builder) {
 	isRebuild := func(i ssa.Instruction) bool {
+		if c04rebuildCall(b, i) {
+			return true
+		}
 		if _, isGo := i.(*ssa.Go); isGo {
 			return false
 		}
@@ -138,19 +141,10 @@ func runC04R1(c *Ctx, b *c04builder) {
 			return false
 		}
 		sc := cc.StaticCallee()
-		if sc == nil || !isRepoFn(sc) {
+		if sc == nil || !isRepoFn(sc) || b.full[unwrap(sc)] {
 			return false
 		}
-		if b.full[sc] {
-			return true
-		}
-		return mustExec(unwrap(sc), func(j ssa.Instruction) bool {
-			_, isGo := j.(*ssa.Go)
-			if cj := callCommon(j); cj != nil && !isGo {
-				return b.full[cj.StaticCallee()]
-			}
-			return false
-		}, 1)
+		return mustExec(unwrap(sc), func(j ssa.Instruction) bool { return c04rebuildCall(b, j) }, 1)
 	}
 	pending := map[*ssa.Function][]c04point{}
 	var order []*ssa.Function
@@ -235,6 +229,9 @@ func runC04R1(c *Ctx, b *c04builder) {
 					continue
 				}
 				detail := "after changing " + p.what + " the function can return without rebuilding the weighted ring (" + fnKey(b.entry) + "): the pickers keep using the stale ring, so weights and removed targets are not honoured"
+				if len(b.hands) > 0 {
+					detail += "; the builder hands the ring back to its caller: a call of it rebuilds the ring only when it is given the route's target list (read from Route.Targets, or the value just stored there) and its result is stored in the ring field of the route on every path to the return"
+				}
 				if p.count != nil || f.Parent() != nil {
 					detail += "; the only accepted skip is on the edge where the code that made the change reported that it changed nothing (count == 0)"
 				}
